@@ -64,6 +64,7 @@ Section SingleRange.
   Hypothesis Hleads : leads cd = leads d.
   Hypothesis Hoff : offset o = 0.                          (* ignored by the linker: finding #8 *)
   Hypothesis Hsel : sel = None \/ sel = Some [id].
+  Hypothesis Hid : id <> us_id.                            (* the model is not keyed '_' *)
 
   Lemma fold_agrees : forall ps cv cs ci cl mv ms mi lg acc,
     length cs = n -> length ci = n -> regime ps (mkState mv ms mi ml0) ->
@@ -78,7 +79,7 @@ Section SingleRange.
       assert (Hpc : py_pos (length cs) t = Some p) by (rewrite Hcs; exact Hp).
       assert (Hpm : py_pos (length ms) t = Some p) by (rewrite Hms; exact Hp).
       pose proof (single_model_linker_eq_model num sub absf ltb isfin zero sev ev d o t p id cd cv cs ci cl mv ms mi ml0 lg
-                    Hcheck Hpc (eq_trans Hci (eq_sym Hcs)) Hpm (eq_trans Hmi (eq_sym Hms)) sel Hlags Hleads (eq_trans Hcs (eq_sym Hms))
+                    Hcheck Hpc (eq_trans Hci (eq_sym Hcs)) Hpm (eq_trans Hmi (eq_sym Hms)) Hid sel Hlags Hleads (eq_trans Hcs (eq_sym Hms))
                     Hmax Hoff Hev Hfin Hagree Hsel) as HS.
       cbv zeta in HS. unfold m0, core1 in HS. fold (Lk cv cs ci cl (mkState mv ms mi ml0) lg) in HS.
       destruct HS as (S1 & S2 & S3 & S4 & _).
